@@ -585,6 +585,16 @@ class Database:
             for step in timeSteps:
                 yield self.h5db[getH5GroupName(*step)]
 
+    def _getCycleNode(self, h5TimeNodeGroup) -> Tuple[int, int]:
+        """
+        The (cycle, node) a time node group is stored, listed and loaded under.
+
+        This is read from the group name: the ``cycle`` attribute of a group still holds the cycle
+        of the original run after ``splitDatabase`` has renumbered the cycles.
+        """
+        match = self.timeNodeGroupPattern.match(h5TimeNodeGroup.name.split("/")[-1])
+        return int(match.group(1)), int(match.group(2))
+
     def getLayout(self, cycle, node):
         """Return a Layout object representing the requested cycle and time node."""
         version = (self._versionMajor, self._versionMinor)
@@ -1206,8 +1216,7 @@ class Database:
                 # should be used.
                 continue
 
-            cycle = h5TimeNodeGroup.attrs["cycle"]
-            timeNode = h5TimeNodeGroup.attrs["timeNode"]
+            cycle, timeNode = self._getCycleNode(h5TimeNodeGroup)
             layout = Layout(
                 (self.versionMajor, self.versionMinor), h5group=h5TimeNodeGroup
             )
@@ -1361,9 +1370,7 @@ class Database:
                 # something has created the group to store aux data
                 continue
 
-            # might save as int or np.int64, so forcing int keeps things predictable
-            cycle = int(h5TimeNodeGroup.attrs["cycle"])
-            timeNode = int(h5TimeNodeGroup.attrs["timeNode"])
+            cycle, timeNode = self._getCycleNode(h5TimeNodeGroup)
             layout = Layout(
                 (self.versionMajor, self.versionMinor), h5group=h5TimeNodeGroup
             )
